@@ -304,7 +304,7 @@ def drop_null_concept(node):
 
 
 def c02_gen(rng):
-    t = gen.gen_tree(rng, wf=True, max_nodes=10)
+    t = gen.gen_tree(rng, wf=True, max_nodes=10, strict=maybe(rng, 0.8))
     return {'tree': j_node(t), 'model': gen.gen_model(rng), 'metadata': [[k, v] for k, v in gen.gen_metadata(rng).items()]}
 
 
@@ -587,7 +587,7 @@ def c04_check(case):
 
 def c05_gen(rng):
     m = gen.gen_model(rng, custom=False)
-    t = gen.gen_tree(rng, wf=True, max_nodes=10)
+    t = gen.gen_tree(rng, wf=True, max_nodes=10, strict=maybe(rng, 0.8))
     return {'tree': j_node(t), 'model': m, 'key': rng.choice(gen.KEYS), 'af': maybe(rng, 0.5),
             'seed': rng.randint(0, 10**6), 'random': maybe(rng, 0.15)}
 
@@ -1080,7 +1080,7 @@ def c09_check(case):
 # ======================================================================= C10
 
 def c10_gen(rng):
-    t = gen.gen_tree(rng, wf=True)
+    t = gen.gen_tree(rng, wf=True, strict=maybe(rng, 0.7))
     return {'tree': j_node(t), 'fmt': rng.choice(gen.FMTS[:7]), 'model': gen.gen_model(rng, custom=False)}
 
 
@@ -1443,7 +1443,7 @@ def writer(node, model, noop):
 
 
 def c14_gen(rng):
-    return {'tree': j_node(gen.gen_tree(rng, wf=True, max_nodes=10)), 'model': rng.choice(['default', 'amr'])}
+    return {'tree': j_node(gen.gen_tree(rng, wf=True, max_nodes=10, strict=maybe(rng, 0.8))), 'model': rng.choice(['default', 'amr'])}
 
 
 def c14_check(case):
@@ -1717,8 +1717,8 @@ def c19_check(case):
         return f'parse_triples raised {type(e).__name__}: {e} on {text!r}'
     if got != want:
         return f'parse_triples(format_triples(ts)) = {got!r} != {want!r}'
-    # spacing variants (symbol targets only: a comma glued to a string is not a documented variant)
-    if all(is_symbol(t) for _, _, t in ts):
+    # spacing variants around the comma and the conjunction sign (symbol and string targets)
+    if True:
         sep = {' ^': ' ^', '^': '^', ' ^ ': ' ^ '}[case['caret']]
         v = sep.join(f"{r.lstrip(':')}({s_}{case['comma']}{t})" for s_, r, t in ts)
         try:
@@ -1902,6 +1902,16 @@ def c17_check(case):
     g, h = py_graph(case['g']), py_graph(case['h'])
     text = case['text']
     calls = c17_calls(g, h, m, text)
+    # the same calls on deep-copied / pickled arguments (what a worker process receives)
+    import pickle
+
+    def singletons(x):
+        y = copy.deepcopy(x)
+        y.epidata = {k: [layout.POP if isinstance(e, layout.Pop) else e for e in v] for k, v in y.epidata.items()}
+        return y
+    # g, h carry fresh Pop objects (py_graph); the copies carry the POP singleton as an in-process decode does
+    g2, h2 = singletons(g), pickle.loads(pickle.dumps(singletons(h)))
+    copies = {name: thunk for name, _, thunk in c17_calls(g2, h2, m, text)}
     results = {}
     for name, args, thunk in calls:
         before = [snap(a) for a in args]
@@ -1918,6 +1928,12 @@ def c17_check(case):
             r2 = 'EXC:' + type(e).__name__
         if r1 != r2:
             return f'{name} is not repeatable'
+        try:
+            r3 = copies[name]()
+        except Exception as e:  # noqa: BLE001
+            r3 = 'EXC:' + type(e).__name__
+        if r3 != r1:
+            return f'{name} gives a different result on a deep-copied/pickled argument'
         results[name] = r1
     return None
 
@@ -2017,6 +2033,8 @@ def run_oracle(pid, n, seed, budget_s=None):
                 continue
             except RecursionError:
                 continue
+            except Exception as e:  # noqa: BLE001
+                r = f'the real code raised {type(e).__name__}: {e} inside the property oracle'
             if r is None:
                 continue
             if isinstance(r, str) and r.startswith('KNOWN:'):
